@@ -1895,6 +1895,9 @@ class Parallel(Logger):
         try:
             self._iterating = True
             self._original_iterator = iterable
+            # Nothing is dispatched ahead of time in sequential mode: this is
+            # read by print_progress, also when a task fails.
+            self._pre_dispatch_amount = 0
             batch_size = self._get_batch_size()
 
             if batch_size != 1:
